@@ -1085,6 +1085,14 @@ func (e *Env) evalLocSet(a ast.Expr) []LocSet {
 				fv := f
 				out = append(out, LocSet{Fam: fam.Name, Obj: intLit(0), Owner: &fv, Desc: types.ExprString(n)})
 			}
+			// ... and the maps its contract names in `assigns mapcells(...)` (owned since it was made)
+			for _, mt := range e.st.ex.prog.closureMapTypes() {
+				d, v, l := e.st.mapFamsT(mt)
+				for _, fam := range []*Family{d, v, l} {
+					fv := f
+					out = append(out, LocSet{Fam: fam.Name, Obj: intLit(0), Owner: &fv, All: true, Desc: types.ExprString(n)})
+				}
+			}
 			return out
 		case "ite":
 			// conditional footprint
